@@ -338,7 +338,6 @@ Proof.
   destruct (sr_parent (search_node s v n SlLstat)) as [np|]; [|discriminate].
   destruct (negb (perm_on _ _ _ _)); [discriminate|].
   destruct (_ && _); [discriminate|].
-  destruct (str_eqb _ _); [inversion Hr; subst; auto|].
   assert (Hmove : forall h0 a b, get h0 c = Some (NFile d k i m) ->
             get (remove_child (add_child h0 np a oc) op b) c = Some (NFile d k i m)).
   { intros. apply remove_child_file. now apply add_child_file. }
@@ -350,13 +349,15 @@ Proof.
     - right. apply remove_child_file, add_child_file. now apply delete_node_file.
     - left. apply Hmove. now rewrite delete_node_other. }
   destruct (get (f_heap s) oc) as [[ch mm|dd kk ii mm|ll mm]|].
-  - destruct (_ || _); [discriminate|]. destruct (negb _); [discriminate|].
+  - destruct (negb (is_not_exist _)); [discriminate|]. destruct (_ || _); [discriminate|].
     inversion Hr; subst; cbn [f_heap with_heap]. left; now apply Hmove.
-  - destruct (sr_child (search_node s v n SlLstat)) as [nc|].
+  - destruct (_ || _); [inversion Hr; subst; auto|].
+    destruct (sr_child (search_node s v n SlLstat)) as [nc|].
     + destruct (get (f_heap s) nc) as [[ch' mm'|dd' kk' ii' mm'|ll' mm']|]; try discriminate;
         inversion Hr; subst; cbn [f_heap with_heap]; apply Hdel.
     + inversion Hr; subst; cbn [f_heap with_heap]. left; now apply Hmove.
-  - destruct (sr_child (search_node s v n SlLstat)) as [nc|].
+  - destruct (_ || _); [inversion Hr; subst; auto|].
+    destruct (sr_child (search_node s v n SlLstat)) as [nc|].
     + destruct (get (f_heap s) nc) as [[ch' mm'|dd' kk' ii' mm'|ll' mm']|]; try discriminate;
         inversion Hr; subst; cbn [f_heap with_heap]; apply Hdel.
     + inversion Hr; subst; cbn [f_heap with_heap]. left; now apply Hmove.
@@ -718,9 +719,11 @@ Section Refine.
 
   Definition meta_of (ino : inode) : meta := {| m_mode := i_perm ino; m_uid := i_uid ino; m_gid := i_gid ino |}.
 
-  Definition resolves (s : fsys) (v : view) (p : str) (c : nat) : Prop :=
-    let r := search_node s v p SlEval in
-    sr_err r = EFileExists /\ sr_child r = Some c /\ pi_is_last (sr_pi r) = true.
+  (* an inductive wrapper: unification never unfolds the walk (3000 units of fuel) when comparing two of these *)
+  Inductive resolves (s : fsys) (v : view) (p : str) (c : nat) : Prop :=
+  | Resolves : (forall slm, let r := search_node s v p slm in
+                  sr_err r = EFileExists /\ sr_child r = Some c /\ pi_is_last (sr_pi r) = true) ->
+               resolves s v p c.
 
   Definition rel_fd (ninodes : nat) (f : handle) (o : ofd) : Prop :=
     hd_view f = 0%nat /\ hd_name f <> [] /\
@@ -757,17 +760,20 @@ Section Refine.
   Proof.
     intros [Hv Hi Hj Hn Hf] Hino Hget Hperm.
     assert (Hlt : (i < length (st_inodes st))%nat) by (apply nth_error_Some; congruence).
-    constructor; cbn [with_inode st_inodes st_names st_fds with_heap f_heap]; rewrite ?set_nth_length; auto.
+    constructor; cbn [with_inode st_inodes st_names st_fds with_heap f_heap]; rewrite ?set_nth_length.
+    - exact Hv.
     - intros j inoj Hnj. destruct (Nat.eq_dec i j) as [<-|Hne].
       + rewrite nth_set_nth_eq in Hnj by auto. inversion Hnj; subst inoj. split; auto.
         exists id. apply get_upd_same. eapply get_some_lt; eauto.
       + rewrite nth_set_nth_ne in Hnj by auto. destruct (Hi _ _ Hnj) as [Hp [idj Hgj]]. split; auto.
         exists idj. rewrite get_upd_other; auto.
         intros Heq. apply Hne. apply Hj; auto. apply nth_error_Some; congruence.
+    - exact Hj.
     - intros v name j Hv0 Hl. unfold lookup_name in *. cbn [st_names] in *.
-      destruct (Hn v name j Hv0 Hl) as [Hlj Hres]. split; auto.
-      unfold resolves in *. rewrite search_node_sim; auto.
-      eapply heap_sim_upd_file; eauto.
+      destruct (Hn v name j Hv0 Hl) as [Hlj Hres]. split; [exact Hlj|].
+      destruct Hres as [Hres]. constructor. intros slm. rewrite search_node_sim; [apply Hres|].
+      eapply heap_sim_upd_file; exact Hget.
+    - exact Hf.
   Qed.
 
   Lemma with_inode_same st i ino : nth_error (st_inodes st) i = Some ino -> with_inode st i ino = st.
@@ -780,8 +786,10 @@ Section Refine.
     get (f_heap s) (ptr i) = Some (NFile (i_bytes ino) (i_nlink ino) id (meta_of ino)) ->
     Rel' (with_heap s (upd (f_heap s) (ptr i) (NFile (i_bytes ino) (i_nlink ino) id (meta_of ino)))) vs hs st.
   Proof.
-    intros HR Hino Hget. rewrite <- (with_inode_same st i Hino) at 2.
-    eapply Rel_upd_inode; eauto. destruct HR as [_ Hi _ _ _]. now destruct (Hi _ _ Hino).
+    intros HR Hino Hget.
+    pose proof (@Rel_upd_inode s vs hs st i ino ino id HR Hino Hget) as H.
+    rewrite (with_inode_same st i Hino) in H. apply H.
+    destruct HR as [_ Hi _ _ _]. now destruct (Hi _ _ Hino).
   Qed.
 
   Lemma Rel_set_fd s vs hs st fd f o :
@@ -789,7 +797,7 @@ Section Refine.
     Rel' s vs (set_nth_ hs fd f) (with_fd st fd o).
   Proof.
     intros [Hv Hi Hj Hn Hf] Hrel.
-    constructor; cbn [with_fd st_inodes st_names st_fds]; auto.
+    constructor; cbn [with_fd st_inodes st_names st_fds]; try assumption.
     now apply Forall2_set_nth.
   Qed.
 
@@ -803,10 +811,11 @@ Section Refine.
                 /\ rel_fd (length (st_inodes st)) f o.
   Proof.
     intros [Hv Hi Hj Hn Hf] Ho.
-    destruct (Forall2_nth Hf Ho) as (f & Hfn & Hrel).
+    destruct (Forall2_nth fd Hf Ho) as (f & Hfn & Hrel).
     destruct Hv as (v & Hv0 & Hgood).
-    exists f, v. repeat split; auto; try apply Hrel.
-    destruct Hrel as (Hview & _). now rewrite Hview.
+    exists f, v. destruct Hgood as [Hadm Hos].
+    assert (Hview : hd_view f = 0%nat) by apply Hrel.
+    rewrite Hview. unfold good_view. auto.
   Qed.
 
   Lemma Rel_no_fd s vs hs st fd :
